@@ -32,9 +32,10 @@ fn drop_port(spec: &mut ScenarioSpec, slot: usize) {
     }
     r.ports.remove(slot);
     for f in &mut r.frames {
-        let low = f.present & ((1u8 << (2 * slot)) - 1);
-        let high = (f.present >> (2 * slot + 2)) << (2 * slot);
-        f.present = low | high;
+        let p = f.present as u16;
+        let low = p & ((1u16 << (2 * slot)) - 1);
+        let high = (p >> (2 * slot + 2)) << (2 * slot);
+        f.present = (low | high) as u8;
     }
 }
 
